@@ -1040,10 +1040,17 @@ def main():
     if old3 != text3:
         open(out3, "w").write(text3)
     items.update(items3)
+    import keychain
+    out4 = os.path.join(os.path.dirname(out), "GeneratedKeys.lean")
+    text4, items4 = keychain.generate_keys(sys.modules[__name__], repo)
+    old4 = open(out4).read() if os.path.exists(out4) else None
+    if old4 != text4:
+        open(out4, "w").write(text4)
+    items.update(items4)
     if js:
-        json.dump({"items": items, "changed": old != text or old2 != text2 or old3 != text3}, open(js, "w"), indent=1)
+        json.dump({"items": items, "changed": old != text or old2 != text2 or old3 != text3 or old4 != text4}, open(js, "w"), indent=1)
     print("srcgen: %d items read, %d unreadable%s" % (sum(v == "read" for v in items.values()),
-          sum(v != "read" for v in items.values()), "" if old == text and old2 == text2 and old3 == text3 else " (generated files rewritten)"))
+          sum(v != "read" for v in items.values()), "" if old == text and old2 == text2 and old3 == text3 and old4 == text4 else " (generated files rewritten)"))
 
 
 if __name__ == "__main__":
